@@ -743,8 +743,14 @@ pub fn block_on<T: 'static>(future: impl Future<Output = T>) -> T {
                 break result.unwrap();
             }
             CallbackCode::Yield => {
+                // Note that a future which only ever yields (e.g. via
+                // `yield_async`) never registers a waitable, so there may
+                // not be a waitable set to poll at all.
                 let set = state.shared.waitable_set.try_lock().unwrap();
-                event = set.as_ref().unwrap().poll()
+                event = match set.as_ref() {
+                    Some(set) => set.poll(),
+                    None => (EVENT_NONE, 0, 0),
+                }
             }
             CallbackCode::Wait(_) => {
                 let set = state.shared.waitable_set.try_lock().unwrap();
